@@ -145,6 +145,33 @@ Definition run_flow (fixed : bool) (p : fparams) (ls : list label) : sx :=
   let '(f, os) := fexec fixed p (finit p) ls in
   L [L (map (fun x => L [enc_obs (fst x); of_bool (snd x)]) os); B (delivered (fs f)); B (returned (fs f))].
 
+(* mode 7: flow control at the REAL buffer size: as mode 5, but read events may be written L [A 10; A n; A seed]
+   (n bytes, byte i = (seed + i) mod 251 + 1) and every byte string of the output is replaced by its length and a checksum
+   input  = L [A 7; A fixed; L [A max_size; A high; A low]; L labels; ...]
+   output = L [L (L [obs'; A paused]); L [A len; A sum] delivered; L [A len; A sum] returned] *)
+Fixpoint gen_from (n : nat) (cur : N) : bytes :=
+  match n with
+  | 0 => []
+  | S n' => (N.modulo cur 251 + 1)%N :: gen_from n' (cur + 1)%N
+  end.
+Definition gen_bytes (n seed : nat) : bytes := gen_from n (N.of_nat seed).
+Definition dec_label_big (x : sx) : option label :=
+  match x with
+  | L [A 10%Z; n; seed] =>
+      match as_nat n, as_nat seed with Some n', Some s' => Some (LData (gen_bytes n' s')) | _, _ => None end
+  | _ => dec_label x
+  end.
+Definition cksum (b : bytes) : Z := Z.of_N (fold_left (fun a x => N.modulo (a * 31 + x) 65521) b 0%N).
+Definition enc_digest (b : bytes) : sx := L [of_nat (length b); A (cksum b)].
+Definition enc_obs_big (o : obs) : sx :=
+  match o with
+  | ORes (RBytes b) => L [A 0; of_nat (length b); A (cksum b)]
+  | _ => enc_obs o
+  end%Z.
+Definition run_flow_big (fixed : bool) (p : fparams) (ls : list label) : sx :=
+  let '(f, os) := fexec fixed p (finit p) ls in
+  L [L (map (fun x => L [enc_obs_big (fst x); of_bool (snd x)]) os); enc_digest (delivered (fs f)); enc_digest (returned (fs f))].
+
 (* mode 4: the buffer-filling blocking receiver over fixed-size records (bfx_framer, identity codec)
    input  = L [A 4; A size; A sizehint; L calls; L events; ...]   as mode 1; output as mode 1 *)
 Definition enc_bres_n (r : @bres (nres bytes)) : sx :=
@@ -175,6 +202,10 @@ Definition run (i : sx) : sx :=
       do buffered <- as_bool bf;
       do ls <- as_list_of dec_elabel lbls;
       run_endpoint buffered (Z.eqb layer 0) (Z.to_nat size) ls
+  | L (A 7%Z :: fx :: L [A mx; A hi; A lo] :: lbls :: _) =>
+      do fixed <- (match fx with A 2%Z => Some repo_fixed | _ => as_bool fx end);
+      do ls <- as_list_of dec_label_big lbls;
+      run_flow_big fixed {| fmax := Z.to_nat mx; fhigh := Z.to_nat hi; flo := Z.to_nat lo |} ls
   | L (A 6%Z :: lbls :: answers :: _) =>
       do ls <- as_list_of dec_tlabel lbls;
       do ans <- as_list_of dec_sslans answers;
